@@ -6,6 +6,8 @@ import (
 	"go/types"
 	"strings"
 
+	"golang.org/x/tools/go/ssa"
+
 	"verif/checker/core"
 )
 
@@ -130,4 +132,8 @@ func c03(c *core.Ctx, r *core.Report) {
 	} else {
 		r.Fail("infra.anchor-unresolved", "R03.base|isBaseCase", "", "not found")
 	}
+	// ---- R03.seenkey
+	seenKeyRule(c, r, "R03.seenkey", "analysis/backtrace", "the trace behind the second entry into a shared helper chain stops at the inner call, its origin appears in no trace")
+	treeKeyRule(c, r, "R03.seenkey", "backward states with different outer callers are merged")
+	memoRule(c, r, "R03.memo", func(fn *ssa.Function, rel string) bool { return rel == "analysis/backtrace" }, "stale traversal state hides traces")
 }
